@@ -395,8 +395,34 @@ func scoreOpts(v int) []gotype.UnfoldOption {
 	return nil
 }
 
-// MyStr is a named string type used as map key.
+// MyStr and MyStr2 are two different named string types used as map keys.
 type MyStr string
+type MyStr2 string
+
+// TwoMaps holds two reflection-unfolded maps with different named key types.
+type TwoMaps struct {
+	A map[MyStr]Simple
+	B map[MyStr2][]int
+	C map[string]Inner
+}
+
+// Inline2 inlines a struct that itself inlines a struct, behind other fields.
+type InlineL2 struct {
+	X int32
+	Y string
+}
+type InlineL1 struct {
+	A  string
+	L2 InlineL2 `struct:",inline"`
+	B  int
+}
+type Inline2 struct {
+	Pad  int64
+	Head string
+	L1   InlineL1 `struct:",inline"`
+	Tail string
+	N    uint16
+}
 
 type NamedSlice []int
 type NamedMap map[string]string
@@ -765,6 +791,22 @@ var Catalogue = []TypeEntry{
 	mk("[]NamedSlice", false, func(c *simkit.Choices) []NamedSlice {
 		return genSlice(c, func(c *simkit.Choices) NamedSlice { return NamedSlice(genSlice(c, func(c *simkit.Choices) int { return c.N(9) })) })
 	}),
+	mk("Inline2", true, func(c *simkit.Choices) Inline2 {
+		return Inline2{Pad: genI(c), Head: genStr(c), L1: InlineL1{A: genStr(c), L2: InlineL2{X: int32(c.N(1000)), Y: genStr(c)}, B: c.N(100)}, Tail: genStr(c), N: uint16(c.N(65536))}
+	}),
+	mk("TwoMaps", true, func(c *simkit.Choices) TwoMaps {
+		t := TwoMaps{}
+		if c.Bool() {
+			t.A = map[MyStr]Simple{MyStr(GenKey(c, 8)): genSimple(c)}
+		}
+		if c.Bool() {
+			t.B = map[MyStr2][]int{MyStr2(GenKey(c, 8)): {1, c.N(9)}}
+		}
+		if c.Bool() {
+			t.C = map[string]Inner{GenKey(c, 8): genInner(c)}
+		}
+		return t
+	}),
 	mk("OrderedKV", true, genOrderedKV),
 	mk("WithKV", true, func(c *simkit.Choices) WithKV {
 		return WithKV{Name: genStr(c), KV: genOrderedKV(c), List: genSlice(c, genOrderedKV)}
@@ -863,7 +905,7 @@ func localRecordB() TypeEntry {
 }
 
 var families = map[string][]string{
-	"inner":  {"Inner", "Holder", "Nested", "Tagged", "[]*Inner", "Wide", "[]Wide", "OmitAll", "Ptrs"},
+	"inner":  {"Inner", "Holder", "Nested", "Tagged", "[]*Inner", "Wide", "[]Wide", "OmitAll", "Ptrs", "Inline2", "TwoMaps"},
 	"named":  {"NamedSlice", "NamedMap", "NamedFields", "[]NamedSlice", "[]int", "map[string]string"},
 	"score":  {"Score", "[]Score", "map[string]Score", "Scored", "int"},
 	"packed": {"PackedU8", "PackedI8", "PackedBool", "PackedU16", "PackedI16", "PackedU32", "PackedI32", "PackedF32", "PackedMix"},
@@ -894,6 +936,20 @@ func PickRelated(c *simkit.Choices, n int, forUnfold bool) []*TypeEntry {
 		out = append(out, PickType(c, forUnfold, false, false))
 	}
 	return out
+}
+
+// inexactRoundTrip lists the supported unfold targets for which fold -> unfold
+// is NOT the identity under DeepEqLoose on the pinned tree (dynamic types
+// behind interface{} change width, omitted fields stay zero). For all others
+// it is (measured: 6000 generated values per type), which gives an exact
+// ground truth for complete matching documents.
+var inexactRoundTrip = map[string]bool{"interface{}": true, "[]interface{}": true, "map[string]interface{}": true, "Tagged": true, "Strs": true,
+	"[]map[string]interface{}": true, "OmitAll": true, "local-A.record": true}
+
+// ExactRoundTrip reports whether unfolding the fold of a value of this type
+// into a zero target must reproduce the value (nil and empty identified).
+func (t *TypeEntry) ExactRoundTrip() bool {
+	return t.Supported && !t.FoldOnly && !inexactRoundTrip[t.Name]
 }
 
 func init() {
@@ -1041,6 +1097,61 @@ func deepEq(a, b reflect.Value) bool {
 		return a.Uint() == b.Uint()
 	}
 	return reflect.DeepEqual(a.Interface(), b.Interface())
+}
+
+// DeepEqLoose is DeepEq with nil and empty slices/maps identified (the
+// library documents that folding and unfolding do not distinguish them).
+func DeepEqLoose(a, b interface{}) bool {
+	if a == nil || b == nil {
+		return a == nil && b == nil
+	}
+	return deepEqLoose(reflect.ValueOf(a), reflect.ValueOf(b))
+}
+
+func deepEqLoose(a, b reflect.Value) bool {
+	if a.Type() != b.Type() {
+		return false
+	}
+	switch a.Kind() {
+	case reflect.Slice:
+		if a.Len() != b.Len() {
+			return false
+		}
+		for i := 0; i < a.Len(); i++ {
+			if !deepEqLoose(a.Index(i), b.Index(i)) {
+				return false
+			}
+		}
+		return true
+	case reflect.Map:
+		if a.Len() != b.Len() {
+			return false
+		}
+		it := a.MapRange()
+		for it.Next() {
+			bv := b.MapIndex(it.Key())
+			if !bv.IsValid() || !deepEqLoose(it.Value(), bv) {
+				return false
+			}
+		}
+		return true
+	case reflect.Ptr, reflect.Interface:
+		if a.IsNil() || b.IsNil() {
+			return a.IsNil() == b.IsNil()
+		}
+		return deepEqLoose(a.Elem(), b.Elem())
+	case reflect.Struct:
+		for i := 0; i < a.NumField(); i++ {
+			if a.Type().Field(i).PkgPath != "" {
+				continue
+			}
+			if !deepEqLoose(a.Field(i), b.Field(i)) {
+				return false
+			}
+		}
+		return true
+	}
+	return deepEq(a, b)
 }
 
 // Render prints a value deeply and without addresses (pointers are
